@@ -42,6 +42,37 @@ def key_rule(ctx, d1, f, cname):
     cons = '%s._get_property' % cname
     ps, _ = run_paths(f.node, max_paths=2000)
     multi = cname == 'MultiStream'
+    # --- roles of the locals, discovered from the structure
+    unp = [n for n in walk_no_nested(f.node) if isinstance(n, ast.Assign) and src(n.value) == 'self._property_cache_key'
+           and isinstance(n.targets[0], ast.Tuple) and len(n.targets[0].elts) == 2]
+    if not unp:
+        d1.fail(cons, 'key-source', 'the previous key is not read from self._property_cache_key', f, f.node)
+        return
+    LAST_LIT, LAST_COMP = (e.id for e in unp[0].targets[0].elts)
+    LIT = COMPKEY = None
+    hit = None
+    for n in walk_no_nested(f.node):
+        if isinstance(n, ast.If) and isinstance(n.test, ast.BoolOp) and isinstance(n.test.op, ast.And):
+            pairs = {}
+            for v in n.test.values:
+                if isinstance(v, ast.Compare) and isinstance(v.ops[0], ast.Eq) and isinstance(v.left, ast.Name) and isinstance(v.comparators[0], ast.Name):
+                    pairs[v.comparators[0].id] = v.left.id
+                    pairs.setdefault(v.left.id, v.comparators[0].id)
+            if LAST_LIT in pairs and LAST_COMP in pairs:
+                LIT, COMPKEY, hit = pairs[LAST_LIT], pairs[LAST_COMP], n
+    if hit is None:
+        d1.fail(cons, 'hit-test', 'the hit test does not compare both parts of the remembered key', f, f.node)
+        return
+    memo_names = {t.id for n in walk_no_nested(f.node) if isinstance(n, ast.Assign) and src(n.value) == 'self._property_cache'
+                  for t in n.targets if isinstance(t, ast.Name)} | {'self._property_cache'}
+    clears = hit.orelse and any(isinstance(x, ast.Call) and isinstance(x.func, ast.Attribute) and x.func.attr == 'clear'
+                                and src(x.func.value) in memo_names for x in ast.walk(hit.orelse[0]))
+    inner = [n for n in hit.body if isinstance(n, ast.If) and isinstance(n.test, ast.Compare) and isinstance(n.test.ops[0], ast.In)
+             and src(n.test.comparators[0]) in memo_names]
+    if clears and inner:
+        d1.ok(cons, 'hit requires literal AND composition to match and the name to be cached; any mismatch clears the memo', f, hit)
+    else:
+        d1.fail(cons, 'hit-test', 'a key mismatch does not clear the memo (or a hit does not require the name to be cached)', f, hit)
     n_miss = 0
     for p in ps:
         if p.raised or p.ret is None:
@@ -53,10 +84,9 @@ def key_rule(ctx, d1, f, cname):
         n_miss += 1
         c = calls[-1]
         env = p.lin.env
-        lit = p.tup.get('literal') or []
+        lit = p.tup.get(LIT) or []
         lit_txt = [x.pretty() for x in lit]
         tag = 'nophase' if nophase else 'phase'
-        # T, P in the key, read from the same object that is passed to the model
         tc_ok = 'self._thermal_condition._T' in lit_txt and 'self._thermal_condition._P' in lit_txt
         star = [a for a in c.node.args if isinstance(a, ast.Starred)]
         tc_arg_ok = len(star) == 1 and src(star[0].value) in ('self._thermal_condition', 'self.thermal_condition')
@@ -64,7 +94,6 @@ def key_rule(ctx, d1, f, cname):
             d1.ok(cons + '[%s]' % tag, 'T and P of the key are those of the thermal condition passed to the model', f, c.stmt)
         else:
             d1.fail(cons + '[%s]' % tag, 'TP-not-in-key', 'the model is evaluated at a thermal condition that is not part of the validity key (%s)' % lit_txt, f, c.stmt)
-        # phase
         if not nophase:
             if multi:
                 ph_ok = "self._imol._phases" in lit_txt and any('self._imol._phases' in a.pretty() for a in c.value)
@@ -74,61 +103,36 @@ def key_rule(ctx, d1, f, cname):
                 d1.ok(cons + '[%s]' % tag, 'the phase(s) passed to the model are the phase component of the key', f, c.stmt)
             else:
                 d1.fail(cons + '[%s]' % tag, 'phase-not-in-key', 'the phase passed to the model is not the one recorded in the key', f, c.stmt)
-        # composition: key derived from the composition object that is passed
-        comp = env.get('composition')
-        ck = env.get('composition_key')
-        comp_txt = comp.pretty() if comp is not None else ''
+        # composition: the key is derived from the very composition object that is passed to the model
+        ckdef = [n for n in walk_no_nested(f.node) if isinstance(n, ast.Assign) and src(n.targets[0]) == COMPKEY]
+        comp_names = {x.id for n in ckdef for x in ast.walk(n.value) if isinstance(x, ast.Name)}
+        comp_forms = [env[k] for k in comp_names if k in env and env[k].pretty().startswith('self._imol.data*')]
+        comp_txt = comp_forms[0].pretty() if comp_forms else ''
         passed = any(comp_txt and comp_txt in a.pretty() for a in c.value)
-        key_from = False
-        for n in walk_no_nested(f.node):
-            if isinstance(n, ast.Assign) and src(n.targets[0]) == 'composition_key':
-                key_from = 'composition' in {x.id for x in ast.walk(n.value) if isinstance(x, ast.Name)}
-        if passed and key_from and comp_txt.startswith('self._imol.data*'):
+        if passed and comp_txt:
             d1.ok(cons + '[%s]' % tag, 'the composition passed to the model is the one the key is derived from (data/total)', f, c.stmt)
         else:
             d1.fail(cons + '[%s]' % tag, 'composition-not-in-key', 'the composition passed to the model is not the one recorded in the key', f, c.stmt)
-        # miss re-keys with a copy, after both parts were compared
         st = [e for e in p.events if e.kind == 'store' and e.target == 'self._property_cache_key']
         copied = st and isinstance(st[-1].stmt.value, ast.Tuple) and 'copy()' in src(st[-1].stmt.value.elts[1]) \
-            and src(st[-1].stmt.value.elts[0]) == 'literal'
+            and src(st[-1].stmt.value.elts[0]) == LIT and COMPKEY in {x.id for x in ast.walk(st[-1].stmt.value.elts[1]) if isinstance(x, ast.Name)}
         if copied:
             d1.ok(cons + '[%s]' % tag, 'a miss stores (literal, copy of the composition key)', f, st[-1].stmt)
         else:
             d1.fail(cons + '[%s]' % tag, 'key-not-copied', 'the stored key aliases live data or omits the literal', f, f.node)
     if n_miss < 2:
         raise AnalysisError('%s: miss paths not found' % cons)
-    # hit test compares both parts; mismatch clears
-    tests = [n for n in walk_no_nested(f.node) if isinstance(n, ast.If) and 'last_literal' in src(n.test)]
-    okk = False
-    if tests:
-        t = tests[0]
-        s = src(t.test).replace('(', '').replace(')', '')
-        okk = isinstance(t.test, ast.BoolOp) and isinstance(t.test.op, ast.And) and 'literal == last_literal' in s \
-            and 'composition_key == last_composition_key' in s and t.orelse and 'property_cache.clear()' in src(t.orelse[0])
-        # the hit additionally requires the name to be cached
-        inner = [n for n in t.body if isinstance(n, ast.If) and 'in property_cache' in src(n.test)]
-        okk = okk and bool(inner)
-    if okk:
-        d1.ok(cons, 'hit requires literal AND composition to match and the name to be cached; any mismatch clears the memo', f, tests[0])
-    else:
-        d1.fail(cons, 'hit-test', 'the hit test does not compare both key parts (or a mismatch does not clear the memo)', f, f.node)
-    # key unpacked from the object's own key -- and compared exactly as stored (single definition of each compared name)
-    unp = [n for n in walk_no_nested(f.node) if isinstance(n, ast.Assign) and src(n.value) == 'self._property_cache_key']
-    if unp:
-        d1.ok(cons, 'last key is read from self._property_cache_key', f, unp[0])
-        names = [x.id for x in ast.walk(unp[0].targets[0]) if isinstance(x, ast.Name)]
-        for nm in names:
-            defs = [x for x in walk_no_nested(f.node) if isinstance(x, ast.Name) and x.id == nm and isinstance(x.ctx, ast.Store)]
-            if len(defs) == 1:
-                d1.ok(cons, 'the remembered key part %r is compared exactly as stored (single definition)' % nm, f, unp[0])
-            else:
-                from ..storage import stmt_of
-                others = [stmt_of(d) for d in defs if stmt_of(d) is not unp[0]]
-                st = others[0] if others else stmt_of(defs[0])
-                d1.fail(cons, 'remembered-key-rewritten', 'the remembered key part %r is re-computed (%s) before the hit test: the comparison no longer '
-                        'tests the state the cached values were computed for' % (nm, src(st)), f, st)
-    else:
-        d1.fail(cons, 'key-source', 'the previous key is not read from self._property_cache_key', f, f.node)
+    d1.ok(cons, 'last key is read from self._property_cache_key', f, unp[0])
+    for nm in (LAST_LIT, LAST_COMP):
+        defs = [x for x in walk_no_nested(f.node) if isinstance(x, ast.Name) and x.id == nm and isinstance(x.ctx, ast.Store)]
+        if len(defs) == 1:
+            d1.ok(cons, 'a remembered key part is compared exactly as stored (single definition)', f, unp[0])
+        else:
+            from ..storage import stmt_of
+            others = [stmt_of(d) for d in defs if stmt_of(d) is not unp[0]]
+            st = others[0] if others else stmt_of(defs[0])
+            d1.fail(cons, 'remembered-key-rewritten', 'a remembered key part is re-computed (%s) before the hit test: the comparison no longer '
+                    'tests the state the cached values were computed for' % src(st), f, st)
 
 
 def share_rule(ctx, d2):
